@@ -9,7 +9,10 @@ import (
 	"github.com/ryogrid/SamehadaDB/lib/storage/access"
 	"github.com/ryogrid/SamehadaDB/lib/storage/buffer"
 	"github.com/ryogrid/SamehadaDB/lib/storage/disk"
+	"github.com/ryogrid/SamehadaDB/lib/storage/index/index_constants"
 	"github.com/ryogrid/SamehadaDB/lib/storage/page"
+	"github.com/ryogrid/SamehadaDB/lib/storage/table/column"
+	"github.com/ryogrid/SamehadaDB/lib/storage/table/schema"
 	"github.com/ryogrid/SamehadaDB/lib/storage/tuple"
 	"github.com/ryogrid/SamehadaDB/lib/types"
 )
@@ -23,6 +26,15 @@ func rowBytes(n int64, seed int64) []byte {
 		b[j] = byte((seed + j*131 + (j/256)*17) & 0xff)
 	}
 	return b
+}
+
+var c15Schema = schema.NewSchema([]*column.Column{
+	column.NewColumn("a", types.Integer, false, index_constants.IndexKindInvalid, types.PageID(-1), nil),
+	column.NewColumn("b", types.Varchar, false, index_constants.IndexKindInvalid, types.PageID(-1), nil),
+	column.NewColumn("c", types.Varchar, false, index_constants.IndexKindInvalid, types.PageID(-1), nil)})
+
+func c15Row(a, l1, l2 string) []types.Value {
+	return []types.Value{types.NewInteger(int32(atoi64(a))), types.NewVarchar(strings.Repeat("p", int(atoi64(l1)))), types.NewVarchar(strings.Repeat("q", int(atoi64(l2))))}
 }
 
 func fnv(b []byte) uint64 {
@@ -109,6 +121,42 @@ func runC15(args []string, in *bufio.Scanner, out *bufio.Writer) {
 					rid := page.RID{PageID: pid, SlotNum: uint32(atoi64(f[1]))}
 					old := new(tuple.Tuple)
 					ok, err, _ := tp.UpdateTuple(t, nil, nil, old, &rid, txn, lm, logMgr, f[4] == "1")
+					if ok {
+						return "upd:" + digest(old.Data()[:old.Size()])
+					}
+					if err == access.ErrNotEnoughSpace {
+						return "nospace"
+					}
+					if err == access.ErrRollbackDifficult {
+						return "rbdiff"
+					}
+					return "fail"
+				case "S": // S <a> <l1> <l2>: insert a row of the schema (int, varchar, varchar) built by NewTupleFromSchema
+					t := tuple.NewTupleFromSchema(c15Row(f[1], f[2], f[3]), c15Schema)
+					rid, err := tp.InsertTuple(t, logMgr, lm, txn)
+					if err != nil {
+						if err == access.ErrNotEnoughSpace {
+							return "nospace"
+						}
+						return "err"
+					}
+					return fmt.Sprintf("ins:%d", rid.GetSlotNum())
+				case "P": // P <slot> <mask> <a> <l1> <l2>: update only the columns of <mask> (bit i = column i), as UPDATE .. SET does:
+					// the caller's tuple holds NULL dummies in the other columns and the page merges it with the stored row
+					mask := atoi64(f[2])
+					vals := c15Row(f[3], f[4], f[5])
+					var idxs []int
+					for c := 0; c < 3; c++ {
+						if mask&(1<<uint(c)) != 0 {
+							idxs = append(idxs, c)
+						} else {
+							vals[c] = types.NewNull()
+						}
+					}
+					t := tuple.NewTupleFromSchema(vals, c15Schema)
+					rid := page.RID{PageID: pid, SlotNum: uint32(atoi64(f[1]))}
+					old := new(tuple.Tuple)
+					ok, err, _ := tp.UpdateTuple(t, idxs, c15Schema, old, &rid, txn, lm, logMgr, false)
 					if ok {
 						return "upd:" + digest(old.Data()[:old.Size()])
 					}
